@@ -989,9 +989,13 @@ def run_case(case):
             res["diffs"].append(("%s:save-raises-%s" % (label, _exc_key(e)), "save raised %s: %s" % (type(e).__name__, str(e)[:160])))
             res["save_exc"] = traceback.format_exc()[-600:]
             return res
-        tree = walk(p)
         try:
-            res["obs"] = node_term(tree)
+            tree = walk(p)
+        except Exception as e:  # noqa  (the written store cannot even be read back array by array)
+            tree = None
+            res["diffs"].append(("%s:store-unreadable-%s" % (label, _exc_key(e)), "the written store cannot be read back: %s: %s" % (type(e).__name__, str(e)[:160])))
+        try:
+            res["obs"] = node_term(tree) if tree is not None else None
         except Unmodelled as u:
             res["notes"].append("store not modelled: %s" % u)
         # ---------------- load
@@ -1032,6 +1036,7 @@ def _oracle_c01(case, obj, ld, p, tree, tmp, res, prev=None):
     pre = "" if label == "graph" else label + ":"
     for k, m in graph_diff(obj, ld, exact=False):
         res["diffs"].append((pre + k, m))
+    files = [(p, ld, res["diffs"])]
     # fixed point: save the loaded object again and reload it
     if case.get("fixpoint"):
         try:
@@ -1055,14 +1060,296 @@ def _oracle_c01(case, obj, ld, p, tree, tmp, res, prev=None):
             p3 = real_save(obj, tmp, cfg3, tag="other", prev=prev if hist else None)
             tree3 = walk(p3)
             res["obs3"] = _term_or_none(node_term, tree3)                  # the other store, as written
-            if tree_canon(tree3) != tree_canon(tree):
+            if tree is not None and tree_canon(tree3) != tree_canon(tree):
                 res["diffs"].append((pre + "store-independence:tree", "store contents differ between %s and %s" % (cfg, cfg3)))
             ld3 = real_load(p3)
             for k, m in graph_diff(ld, ld3, exact=True):
                 res["diffs"].append((pre + "store-independence:" + k, "%s vs %s: %s" % (cfg["store"], cfg3["store"], m)))
             res["other_done"] = True
+            files.append((p3, ld3, res["diffs"]))
         except Exception as e:  # noqa
             res["diffs"].append((pre + "store-independence:raises-%s" % _exc_key(e), "other store raised %s: %s" % (type(e).__name__, str(e)[:160])))
+    # object history: the same live graph is changed in place and saved again (and again); with an overwrite history the
+    # fixed-point run has re-written the first target, which then no longer holds this graph's save
+    if case.get("hist"):
+        if hist and case.get("fixpoint"):
+            files = files[1:]
+        _history_rounds(case, obj, files, tmp, res)
+
+
+# ------------------------------------------------------------------------------------------
+# object histories across saves: the SAME live graph is saved, mutated in place, saved again; every file must load to
+# the state the graph had at the time of THAT save
+def _changed_tensor(t):
+    """a tensor of the same dtype / shape as t whose contents differ from t's"""
+    import torch
+    d = t.detach().clone()
+    if d.dtype == torch.bool:
+        return ~d
+    if d.dtype.is_floating_point or d.dtype.is_complex:
+        out = (d * 2 + 1).to(d.dtype)
+        bad = ~torch.isfinite(out.abs() if d.dtype.is_complex else out) | (out == d)
+        out[bad] = 3
+        return out
+    return d + 1 if d.dtype != torch.uint8 else (d + 1) % 251
+
+
+def _mut_tensor(t, rnd, how=None):
+    """change the contents of the live tensor t in place (same object, dtype, shape, requires_grad) through one of the
+    legitimate write paths; returns the name of the path or None when t has no contents"""
+    import torch
+    if t.numel() == 0:
+        return None
+    new = _changed_tensor(t)
+    how = how or rnd.choice(["data-inplace-op", "data-copy_", "data-assign", "numpy-view", "inplace-op", "setitem"])
+    if how == "numpy-view":
+        try:
+            a = t.detach().numpy()              # shares the tensor's memory
+            a[...] = new.numpy()
+            return "tensor:" + how
+        except (TypeError, RuntimeError):       # dtype without a NumPy counterpart (bfloat16)
+            how = "data-copy_"
+    if how == "data-inplace-op":
+        if t.dtype == torch.bool:
+            t.data.logical_not_()
+        elif t.dtype.is_floating_point or t.dtype.is_complex:
+            t.data.mul_(2).add_(1)
+            if not bool((t.data == new).all()):
+                t.data.copy_(new)
+        else:
+            t.data.copy_(new)
+    elif how == "data-copy_":
+        t.data.copy_(new)
+    elif how == "data-assign":
+        t.data = new
+    elif how == "inplace-op":
+        with torch.no_grad():
+            t.copy_(new)
+    else:
+        with torch.no_grad():
+            t[...] = new
+    return "tensor:" + how
+
+
+def _mut_ndarray(a, rnd):
+    """change the contents of the live ndarray in place; None when it has no contents or is read-only"""
+    if a.size == 0 or not a.flags.writeable or a.dtype.kind == "O":
+        return None
+    k = a.dtype.kind
+    with np.errstate(all="ignore"):
+        if k == "b":
+            a[...] = ~a
+        elif k in "iu":
+            a += 1
+        elif k in "fc":
+            old = a.copy()
+            a *= 2
+            a += 1
+            same = (a == old) | ~np.isfinite(a)
+            a[same] = 3
+        elif k in "US":
+            z, o = (b"zq", b"a") if k == "S" else ("zq", "a")
+            a[...] = np.where(a == z, o, z)
+        elif k in "mM" and a.dtype.itemsize == 8:
+            a.view("int64")[...] += 1
+        elif k == "V" and a.dtype.names:
+            a[a.dtype.names[0]] += 1
+        else:
+            return None
+    return "ndarray:inplace"
+
+
+def _mut_blob(x, rnd):
+    """in-place change of a torch module / optimizer / scheduler / generator, or of a NumPy random generator"""
+    import torch
+    if isinstance(x, torch.optim.Optimizer) or (hasattr(x, "step") and hasattr(x, "get_last_lr") and hasattr(x, "optimizer")):
+        opt = x if isinstance(x, torch.optim.Optimizer) else x.optimizer
+        for g in opt.param_groups:
+            for q in g["params"]:
+                q.grad = torch.ones_like(q)
+        opt.step()
+        if opt is not x:
+            x.step()
+            return "scheduler:step"
+        return "optimizer:step"
+    if isinstance(x, torch.nn.Module):
+        ps = list(x.parameters()) + list(x.buffers())
+        if not ps:
+            return None
+        how = rnd.choice(["param-data-inplace", "param-inplace", "param-data-assign"])
+        for q in ps:
+            _mut_tensor(q, rnd, {"param-data-inplace": "data-inplace-op", "param-inplace": "inplace-op", "param-data-assign": "data-assign"}[how])
+        return "module:" + how
+    if isinstance(x, torch.Generator):
+        x.manual_seed(rnd.randrange(10 ** 6))
+        return "tgen:reseed"
+    if isinstance(x, np.random.Generator):
+        x.random()
+        return "rng:advance"
+    return None
+
+
+def _new_value(rnd, in_cont):
+    from . import gen_C01 as G
+    return build(G.gen_value(rnd, rnd.choice([0, 1, 1, 2]), in_cont, 3))
+
+
+def _is_attrs(x):
+    return getattr(type(x), "__attrs_attrs__", None) is not None
+
+
+def mutate(x, rnd, p, ops, path="obj"):
+    """mutate the live graph below x IN PLACE, every legitimate way: contents of tensors (through .data, in-place ops,
+    shared NumPy views) / ndarrays / modules / optimizers / generators, re-assignment of attributes, items and dict
+    values (any value kind, so a name can change its storage kind), append / insert / pop, key and attribute deletion,
+    new attributes / keys / set elements.  Each child is touched with probability p; ops collects 'path: what'."""
+    import torch
+    from quantem.core.io.serialize import AutoSerialize
+
+    def inplace(v, pth):
+        """in-place change of the child itself (its identity is kept); True when done"""
+        if isinstance(v, torch.Tensor):
+            how = _mut_tensor(v, rnd)
+        elif isinstance(v, np.ndarray):
+            how = _mut_ndarray(v, rnd)
+        else:
+            how = _mut_blob(v, rnd)
+        if how:
+            ops.append("%s: %s" % (pth, how))
+        return bool(how)
+
+    def visit(v, pth, setter, deleter, in_cont):
+        """one child: in-place change, re-assignment or deletion in its parent; then recursion"""
+        stateful = isinstance(v, (torch.Tensor, np.ndarray, torch.nn.Module, torch.optim.Optimizer, torch.Generator, np.random.Generator)) \
+            or (hasattr(v, "step") and hasattr(v, "get_last_lr"))
+        if rnd.random() < (min(0.95, p * 2) if stateful else p * 0.6):
+            c = rnd.random()
+            if stateful and c < 0.75 and inplace(v, pth):
+                pass
+            elif c < 0.88 and setter is not None:
+                nv = _new_value(rnd, in_cont)
+                setter(nv)
+                ops.append("%s: re-assigned (%s -> %s)" % (pth, _kind(v), _kind(nv)))
+                return
+            elif deleter is not None and c >= 0.88:
+                deleter()
+                ops.append("%s: deleted (%s)" % (pth, _kind(v)))
+                return
+        if isinstance(v, (list, tuple, dict, set)) or (isinstance(v, AutoSerialize) and not isinstance(v, torch.nn.Module)):
+            mutate(v, rnd, p, ops, pth)
+
+    from . import gen_C01 as G
+    if isinstance(x, AutoSerialize):
+        fixed = _is_attrs(x)
+        names = list(ovars(x))
+        for nm in names:
+            can_del = (not fixed) and len(ovars(x)) > 1
+            visit(getattr(x, nm), "%s.%s" % (path, nm), (lambda nv, nm=nm: setattr(x, nm, nv)),
+                  (lambda nm=nm: delattr(x, nm)) if can_del else None, False)
+        if not fixed and rnd.random() < p:
+            free = [n for n in G.ATTR_NAMES if n not in ovars(x)]
+            if free:
+                nm = rnd.choice(free)
+                setattr(x, nm, _new_value(rnd, False))
+                ops.append("%s.%s: new attribute (%s)" % (path, nm, _kind(getattr(x, nm))))
+    elif isinstance(x, list):
+        i = 0
+        while i < len(x):
+            n0 = len(x)
+            visit(x[i], "%s[%d]" % (path, i), (lambda nv, i=i: x.__setitem__(i, nv)), (lambda i=i: x.pop(i)), True)
+            i += 1 if len(x) == n0 else 0
+        if rnd.random() < p:
+            nv = _new_value(rnd, True)
+            if x and rnd.random() < 0.3:
+                x.insert(0, nv)
+                ops.append("%s: insert at 0 (%s)" % (path, _kind(nv)))
+            else:
+                x.append(nv)
+                ops.append("%s: append (%s)" % (path, _kind(nv)))
+    elif isinstance(x, tuple):
+        for i, v in enumerate(x):
+            visit(v, "%s[%d]" % (path, i), None, None, True)
+    elif isinstance(x, dict):
+        for k in list(x):
+            visit(x[k], "%s[%r]" % (path, k), (lambda nv, k=k: x.__setitem__(k, nv)), (lambda k=k: x.__delitem__(k)), True)
+        if rnd.random() < p:
+            free = [n for n in G.DICT_KEYS if n not in x]
+            k = rnd.choice(free)
+            x[k] = _new_value(rnd, True)
+            ops.append("%s[%r]: new key (%s)" % (path, k, _kind(x[k])))
+    elif isinstance(x, set):
+        if x and rnd.random() < p:
+            e = rnd.choice(sorted(x, key=lambda e_: repr(_canon_elem(e_))))
+            x.discard(e)
+            ops.append("%s: discard (%s)" % (path, _short(e, 30)))
+        if rnd.random() < p:
+            numeric = bool(x) and all(_is_num(e) for e in x)
+            e = rnd.randint(1000, 9999) if numeric else build(G.gen_hashable(rnd))
+            try:
+                if e not in x:
+                    x.add(e)
+                    ops.append("%s: add (%s)" % (path, _short(e, 30)))
+            except TypeError:
+                pass
+    return ops
+
+
+def _history_rounds(case, obj, files, tmp, res):
+    """files: [(path, object loaded from it right after the save, list its findings go to)] of the saves made so far"""
+    import random
+    h = case["hist"]
+    rnd = random.Random(h["seed"])
+    label = case.get("label", "graph")
+    pre = ("" if label == "graph" else label + ":") + "history:"
+    res["hist"] = []
+    last_tag, last_cfg = "x", case["cfg"]
+    for n, rd in enumerate(h["rounds"]):
+        rec = {"round": n + 1, "ops": [], "diffs": [], "v": None, "obs": None, "ld": None, "target": rd["target"]}
+        res["hist"].append(rec)
+        p = h["p"]
+        for _ in range(6):
+            mutate(obj, rnd, p, rec["ops"])
+            if rec["ops"]:
+                break
+            p = min(1.0, p + 0.2)
+        rec["v"] = _term_or_none(alpha, obj)
+        if rd["target"] == "same":
+            cfg, tag = dict(last_cfg, mode="o", compression=rd["cfg"]["compression"]), last_tag
+        else:
+            cfg, tag = dict(rd["cfg"]), "hist%d" % n
+        rec["cfg"] = cfg
+        try:
+            pk = real_save(obj, tmp, cfg, tag=tag)
+        except Exception as e:  # noqa
+            rec["diffs"].append((pre + "save-raises-%s" % _exc_key(e), "save #%d of the same live graph raised %s: %s" % (n + 2, type(e).__name__, str(e)[:160])))
+            return
+        try:
+            rec["obs"] = _term_or_none(lambda: node_term(walk(pk)))
+        except Exception as e:  # noqa  (the written store cannot even be read back array by array)
+            rec["diffs"].append((pre + "store-unreadable-%s" % _exc_key(e), "the store written by save #%d of the same live graph (%s target, store %s) "
+                                 "cannot be read back: %s: %s" % (n + 2, rd["target"], cfg["store"], type(e).__name__, str(e)[:160])))
+        try:
+            ldk = real_load(pk)
+        except Exception as e:  # noqa
+            rec["diffs"].append((pre + "load-raises-%s" % _exc_key(e), "load of save #%d raised %s: %s" % (n + 2, type(e).__name__, str(e)[:160])))
+            return
+        rec["ld"] = _term_or_none(alpha, ldk, loaded=True)
+        what = "save #%d of the same live graph (%s, store %s, mode %s) after in-place changes [%s]" % (
+            n + 2, "same target" if rd["target"] == "same" else "new target", cfg["store"], cfg["mode"], "; ".join(rec["ops"][:6]))
+        for k, m in graph_diff(obj, ldk, exact=False):
+            rec["diffs"].append((pre + k, "%s does not load to the state the graph had when it was saved: %s" % (what, m)))
+        # the files of the EARLIER saves (not overwritten) still load to the state of their own save
+        files = [f for f in files if str(f[0]) != str(pk)]
+        for pj, ldj, sink in files:
+            try:
+                again = real_load(pj)
+                for k, m in graph_diff(ldj, again, exact=True):
+                    sink.append((pre + "earlier-file:" + k, "a file written before the graph was changed loads differently after the later save: " + m))
+            except Exception as e:  # noqa
+                sink.append((pre + "earlier-file:load-raises-%s" % _exc_key(e), "an earlier file no longer loads after the later save: %s" % str(e)[:160]))
+        files.append((pk, ldk, rec["diffs"]))
+        last_tag, last_cfg = tag, cfg
+        rec["done"] = True
 
 
 # ------------------------------------------------------------------------------------------
